@@ -44,7 +44,7 @@ CHECKS = {
  "C05": dict(
     technique="deterministic simulation: option sets that add goroutines/files/log traffic compared under seeded adversarial schedules and map orders; on-demand/pkg-filter/max-alarms variants ride along as a cross-run oracle",
     text="Seeded search, not proof. For each generated program the verdict (set of source->sink position pairs) of the base configuration under the zero tape is compared with the verdict under every listed option set run with swarm-drawn schedules, worker counts and map orders. max-alarms=k: subset, at most k, non-empty iff the unlimited result is. Only report-*/log-level have a temporal dimension; summarize-on-demand, pkg-filter and max-alarms are a differential comparison executed inside the simulator and are counted separately (sim_decided / ride_along / max_alarms in the evidence).",
-    note="Generated programs are single-package and import-free, so pkg-filter is nearly vacuous. Trusts simrt's primitive models. Built without the race detector (results only).",
+    note="Generated programs are import-free; half of them have a second package (m/lib) so that pkg-filter excludes something, plus a family of closure-factory programs. Trusts simrt's primitive models. Built without the race detector (results only).",
     ref="4/C05"),
  "C06": dict(
     technique="deterministic simulation: seeded scheduler for init steps and summary workers, worker count and every map iteration order in analysis/... and internal/... behind a seam; verdict compared with the zero-tape reference run",
@@ -58,7 +58,7 @@ CHECKS = {
     ref="4/C17"),
  "C20": dict(
     technique="deterministic simulation: seeded scheduler over the analyser's goroutines with a race-detector-transparent baton; stall and worker-count faults",
-    text="Seeded schedule search, not proof. The real analyser (instrumented copy of the working tree, -race) runs under simrt: every go/chan/WaitGroup/Mutex/atomic operation, map iteration, NumCPU and clock read is a simulator decision drawn from one tape. Oracles: no race report (the detector cannot see the scheduler), no deadlock, no goroutine alive when Analyze returns, summaries report complete at return, MapParallel == Map with every element processed once.",
+    text="Seeded schedule search, not proof. The real analyser (instrumented copy of the working tree, -race) runs under simrt: every go/chan/WaitGroup/Mutex/atomic operation, map iteration, NumCPU and clock read is a simulator decision drawn from one tape. Oracles: no race report (the detector cannot see the scheduler), no deadlock, no goroutine alive when Analyze returns, summaries report complete at return, MapParallel == Map with every element processed once. Ids drawn from the shared id counter must be pairwise distinct among the summaries of the final graph (lost updates are invisible to the race detector).",
     note="Trusts the race detector's happens-before model and simrt's enabledness models of unbuffered/buffered channels, WaitGroup, Mutex, Once. internal/pointer and x/tools run uninstrumented (their internal locks are never held across a scheduling point). Generated programs are import-free; std-importing corpus programs only in the thorough tier.",
     ref="4/C20, 2"),
 }
